@@ -508,6 +508,23 @@ def run_alive(case):
   return R(None, True, (who, order))
 
 
+def gen_types(run):
+  from ..routes import struct_params
+  try:
+    T = route_table()
+  except Exception:
+    T = {}
+  for name, ent in T.items():
+    if struct_params(ent[1]):
+      yield (name,)
+
+
+def run_types(case):
+  from ..routes import struct_params, types_agree
+  ent = route_table()[case[0]]
+  return types_agree(case[0], ent[0], ent[1], ent[2], struct_params(ent[1]))
+
+
 KINDS = OrderedDict([
   ("full", Kind(gen_full, run_filter, chunk=400,
                 rule="all coefficient vectors up to the length bound; symbolic input, zero and memory")),
@@ -521,4 +538,6 @@ KINDS = OrderedDict([
                        rule="each function with every documented parameter set: all positional / all keyword / every split must agree")),
   ("long", Kind(gen_long, run_long, chunk=2, rule="filter shapes (incl. delays 17 and 25) x input lengths 64, 65, 128, 129, 300 (1500) x input kind, exact")),
   ("alive-together", Kind(gen_alive, run_alive, chunk=4, rule="two runs (same object / equal filter / other filter of the same shape) consumed alternately")),
+  ("param-types", Kind(gen_types, run_types, chunk=1,
+                       rule="structural integer parameters given as integral float / Fraction / bool: same result wherever the type is accepted")),
 ])
